@@ -15,6 +15,7 @@ import Golib.Proof.C18SolvH2
 import Golib.Proof.C18CliquesTop
 import Golib.Proof.C18SolvOrd
 import Golib.Proof.C18Permute
+import Golib.Proof.C18Compose
 
 namespace Golib.C18
 
@@ -158,6 +159,61 @@ theorem c18_bestOverflow_spec {β : Type} (ord : List Int → List Int) (s : Lis
 example : best id [(8, "a"), (12, "b")] 10 = some "a" ∧ best List.reverse [(8, "a"), (12, "b")] 10 = some "a" ∧
     bestO id [(8, "a"), (12, "b")] 10 = some "b" ∧ bestO List.reverse [(8, "a"), (12, "b")] 10 = some "b" := by
   decide
+
+/-! ### FindDpSolvers followed by Best / BestAllowMinOverflow (end to end)
+
+The last sentence of the FindDpSolvers clause: the map returned by the heap-level run
+(`solversH`, read back through the heap), queried at the same `maxValue`, for every iteration
+order of the three map loops, every tie-breaker and growth policy.  `maxV < maxInt` is the
+only guard beyond the domain of the property (`minDiff` starts at `math.MaxInt`). -/
+
+/-- `FindDpSolvers(maxV, items, …).Best(maxV)` is never `nil`: it is a sub-selection (each
+item at most once) whose total is `≤ maxV` and is the largest attainable total `≤ maxV`. -/
+theorem c18_best_of_solvers {α : Type} (br : Option (List α → List α → Bool)) (maxV : Int)
+    (allowOver : Bool) (grow : Nat → Nat) (vf : α → Int) (ord1 ord2 : Nat → List Int → List Int)
+    (hord1 : ∀ i l, (ord1 i l).Perm l) (hord2 : ∀ i l, (ord2 i l).Perm l)
+    (ord : List Int → List Int) (hord : ∀ l, (ord l).Perm l)
+    (items : List α) (hpos : ∀ x ∈ items, 0 < vf x) (hmax : 0 ≤ maxV) (hbig : maxV < maxInt) :
+    ∃ st m sel, solversH br maxV allowOver grow vf ord1 ord2 items = some st ∧
+      readMap st.heap st.dp = some m ∧ best ord m maxV = some sel ∧
+      sel.Sublist items ∧ isum vf sel ≤ maxV ∧
+      ∀ t, Att vf items t → t ≤ maxV → t ≤ isum vf sel := by
+  obtain ⟨st, h1, _, h3⟩ := solversH_spec br maxV allowOver grow vf ord1 ord2 hord2 items
+  obtain ⟨sel, h⟩ := best_of_solvers br maxV allowOver vf ord1 ord2 hord1 hord2 ord hord items
+    hpos hmax hbig
+  exact ⟨st, _, sel, h1, h3, h⟩
+
+/-- `FindDpSolvers(maxV, items, valueFunc, true, …).BestAllowMinOverflow(maxV)` is never
+`nil`: a sub-selection whose total is exactly `maxV` if `maxV` is attainable; otherwise the
+smallest attainable total above `maxV` if some total above `maxV` is attainable; otherwise
+(everything attainable lies below `maxV`) the largest attainable total. -/
+theorem c18_bestOverflow_of_solvers {α : Type} (br : Option (List α → List α → Bool)) (maxV : Int)
+    (grow : Nat → Nat) (vf : α → Int) (ord1 ord2 : Nat → List Int → List Int)
+    (hord1 : ∀ i l, (ord1 i l).Perm l) (hord2 : ∀ i l, (ord2 i l).Perm l)
+    (ord : List Int → List Int) (hord : ∀ l, (ord l).Perm l)
+    (items : List α) (hpos : ∀ x ∈ items, 0 < vf x) (hmax : 0 ≤ maxV) (hbig : maxV < maxInt) :
+    ∃ st m sel, solversH br maxV true grow vf ord1 ord2 items = some st ∧
+      readMap st.heap st.dp = some m ∧ bestO ord m maxV = some sel ∧
+      sel.Sublist items ∧
+      (Att vf items maxV → isum vf sel = maxV) ∧
+      (¬ Att vf items maxV → (∃ a, Att vf items a ∧ maxV < a) →
+        maxV < isum vf sel ∧ ∀ a, Att vf items a → maxV < a → isum vf sel ≤ a) ∧
+      (¬ Att vf items maxV → (¬ ∃ a, Att vf items a ∧ maxV < a) →
+        isum vf sel < maxV ∧ ∀ t, Att vf items t → t ≤ isum vf sel) := by
+  obtain ⟨st, h1, _, h3⟩ := solversH_spec br maxV true grow vf ord1 ord2 hord2 items
+  obtain ⟨sel, h⟩ := bestO_of_solvers br maxV vf ord1 ord2 hord1 hord2 ord hord items
+    hpos hmax hbig
+  exact ⟨st, _, sel, h1, h3, h⟩
+
+/-- Non-vacuity: values 2, 3, 3 and `maxValue = 4` (not attainable: totals are 0 2 3 5 6 8):
+`Best` gives total 3, `BestAllowMinOverflow` the smallest overshoot 5; with `maxValue = 9`
+nothing overshoots and `BestAllowMinOverflow` gives the largest total 8. -/
+example : best List.reverse (solversV none 4 true (fun x : Int => x) (fun _ l => l) (fun _ l => l.reverse) [2, 3, 3]) 4
+      = some [3] ∧
+    bestO List.reverse (solversV none 4 true (fun x : Int => x) (fun _ l => l) (fun _ l => l.reverse) [2, 3, 3]) 4
+      = some [2, 3] ∧
+    bestO id (solversV none 9 true (fun x : Int => x) (fun _ l => l.reverse) (fun _ l => l) [2, 3, 3]) 9
+      = some [2, 3, 3] := by decide
 
 /-! ### GetMaximalCliques: the shared `P`/`X` array -/
 
